@@ -1170,6 +1170,25 @@ def c05_checks(repo: Repo, tier: str, res: CheckResult, seed: int) -> None:
         n += 1
         res.evaluated("G:trail:" + prog.ident, True)
         oracle = crown_fields(prog.rec["crown"])
+        if mode == "ALL":
+            # every field loader runs whatever happened before it: a leaf whose loading is skipped once an error has been
+            # collected is an independently invalid leaf that is never reported (extra targets included)
+            parents = {id(c): p for p in ast.walk(prog.fn) for c in ast.iter_child_nodes(p)}
+            for call in ast.walk(prog.fn):
+                if not (isinstance(call, ast.Call) and isinstance(call.func, ast.Name) and call.func.id.startswith("loader_")):
+                    continue
+                node: ast.AST = call
+                while id(node) in parents:
+                    par = parents[id(node)]
+                    if isinstance(par, ast.If) and node in par.body and any(
+                            isinstance(x, ast.Name) and (x.id == "errors" or x.id.startswith("has_") and x.id.endswith("error") or "_error" in x.id and x.id.startswith("has_"))
+                            for x in ast.walk(par.test)):
+                        res.add(_gen_finding("C05", "ALL.generated-leaf-skipped-after-error", prog, call.lineno,
+                                             f"if {norm(par.test)}: ... {call.func.id}(...)",
+                                             f"`{call.func.id}` is applied only when `{norm(par.test)}` holds: once another leaf has failed this leaf is not "
+                                             "loaded at all, an invalid value in it is missing from the errors DebugTrail.ALL reports"))
+                        break
+                    node = par
         for r in S.reads:
             if r.via not in ("loader",):
                 continue
